@@ -16,6 +16,12 @@ TEMPLATES = [
     ("second-line-string", "a = 1\nbb = \"x\ny{c}\"\nEND\n"),
     ("after-END", "a = 1\nEND\n{c}"),
     ("block-name", "GROUP = g{c}\n a = 1\nEND_GROUP\nEND\n"),
+    # the ends of the text: the first character is nobody's look-ahead, the last has no look-ahead
+    ("first-character", "{c}a = 1\nEND\n"),
+    ("first-then-blank", "{c} a = 1\nEND\n"),
+    ("whole-text", "{c}"),
+    ("last-character", "a = 1\nb = x{c}"),
+    ("last-after-blank", "a = 1\n{c}"),
 ]
 
 
